@@ -16,7 +16,8 @@ RULE = ("binImgs: shapes (..., a*n, b*n) with 0-2 leading axes, n in 1..6, float
         "return modes consistent, reported diameter brackets the crossing, Gaussian trend. Non-trivial: binning n>=2 on a "
         "stack; non-square target or order 5; off-centre energy. Distinct = canonical JSON."
         " Also: bin factors one ulp off an integer and numpy.float32; zoom of integer-typed counts (a quadratic >= 0 at the nodes and negative between two of them; arbitrary counts vs float64)."
-        " Encircled energy on odd and even sides, and on float32 / float16 copies of the image judged at the precision of the type.")
+        " Encircled energy on odd and even sides, and on float32 / float16 copies of the image judged at the precision of the type."
+        " Big-endian integer / float frames in the binning law.")
 ASSUMPTIONS = ["zoom output[i, j] is the spline evaluated at (linspace(0,n-1,kx)[i], linspace(0,n-1,ky)[j]) - first requested size = first axis",
                "binning of integer / boolean frames is judged against the sums as numbers (int64), not modulo the container's range",
                "encircled-energy Gaussian comparison is a trend check with bound 0.12/sigma"]
